@@ -128,7 +128,7 @@ def write_ndjson(path, events):
             f.write(json.dumps(e, separators=(",", ":")) + "\n")
 
 
-def validate_trace(module, cfg, events, seg_key="reset", max_rejects=12, workers=1, dfs=False, timeout=1100, spec_dirs=(), heap="8g"):
+def validate_trace(module, cfg, events, seg_key="reset", max_rejects=12, workers=1, dfs=False, timeout=1100, spec_dirs=(), heap="8g", independent=False):
     """Validate a recorded trace (list of event dicts) against spec/<module>.tla.
 
     The trace spec consumes one event per step (variable l) and is accepted iff l runs off the end
@@ -140,11 +140,12 @@ def validate_trace(module, cfg, events, seg_key="reset", max_rejects=12, workers
     os.makedirs(os.path.join(BUILD, "tlc"), exist_ok=True)
     rejected = []
     total_states = 0
+    done_prefix = 0
     info = dict(runs=0, wall=0.0)
     evs = list(events)
     while True:
         if not evs:
-            return 0, rejected, total_states, info
+            return done_prefix, rejected, total_states, info
         fd, path = tempfile.mkstemp(prefix="trace_", suffix=".ndjson", dir=os.path.join(BUILD, "tlc")); os.close(fd)
         write_ndjson(path, evs)
         try:
@@ -155,7 +156,7 @@ def validate_trace(module, cfg, events, seg_key="reset", max_rejects=12, workers
         total_states += r.distinct
         accepted = (r.rc == 0 and not r.postcondition_failed and not r.violated)
         if accepted:
-            return len(evs), rejected, total_states, info
+            return done_prefix + len(evs), rejected, total_states, info
         if r.violated and r.violated != "unknown" and not r.postcondition_failed:
             # an invariant of the spec failed on the recorded behaviour: the refused event is at depth-1
             m = re.findall(r"^State (\d+):", r.out, re.M)
@@ -176,10 +177,15 @@ def validate_trace(module, cfg, events, seg_key="reset", max_rejects=12, workers
         if evs[bad].get("e") == seg_key:
             raise TlcError("trace validation of %s refused a reset event\n%s" % (module, r.out[-2000:]))
         rejected.append((evs[lo:hi], bad - lo))
-        evs = evs[:lo] + evs[hi:]
+        if independent:
+            # segments do not share state: the accepted prefix needs no second look
+            done_prefix += lo
+            evs = evs[hi:]
+        else:
+            evs = evs[:lo] + evs[hi:]
         if len(rejected) >= max_rejects:
             info["truncated"] = True
-            return len(evs), rejected, total_states, info
+            return done_prefix + len(evs), rejected, total_states, info
 
 
 def sany(path):
